@@ -28,10 +28,15 @@ fn special_family(rng: &mut Rng, cfg: &GenCfg) -> Option<Vec<Doc>> {
     match rng.below(40) {
         0 => {
             // deep chain, same or distinct names, optionally with a sibling at every level
-            let depth = rng.range(5, 60);
+            // depth classes: moderate; around 96..140; beyond 256 (thresholds of "stack protection" style changes)
+            let depth = match rng.below(80) {
+                0..=72 => rng.range(5, 60),
+                73..=78 => rng.range(90, 140),
+                _ => rng.range(250, 290),
+            };
             let same = rng.pct(50);
             let sib = rng.pct(40);
-            let k = rng.range(1, 3);
+            let k = if depth > 140 { 1 } else { rng.range(1, 3) };
             let mut docs = Vec::new();
             for d in 0..k {
                 let dd = if d == 0 { depth } else { rng.range(2, depth) };
@@ -40,8 +45,17 @@ fn special_family(rng: &mut Rng, cfg: &GenCfg) -> Option<Vec<Doc>> {
                     let mut e = Elem::new(&if same || i == 0 { "a".to_string() } else { format!("a{i}") });
                     if let Some(c) = cur.take() {
                         e.kids.push(Node::Elem(c));
-                    } else if rng.pct(50) {
-                        e.kids.push(Node::Text("x".into()));
+                    } else {
+                        // the bottom of the chain branches: a text leaf and two struct-producing children
+                        if rng.pct(50) {
+                            e.kids.push(Node::Text("x".into()));
+                        }
+                        if rng.pct(60) {
+                            let mut p = Elem::new("p");
+                            p.kids.push(Node::Elem(Elem::new("q")));
+                            e.kids.push(Node::Elem(p));
+                            e.kids.push(Node::Elem(Elem::new("t")));
+                        }
                     }
                     if sib && rng.pct(60) {
                         let mut s = Elem::new("s");
@@ -89,7 +103,7 @@ fn special_family(rng: &mut Rng, cfg: &GenCfg) -> Option<Vec<Doc>> {
                     let mut p = Elem::new("p");
                     for a in 0..na {
                         if rng.pct(80) {
-                            p.attrs.push(crate::dom::Attr { name: format!("a{a}"), value: "v".into(), quote: b'"' });
+                            p.attrs.push(crate::dom::Attr { name: format!("a{a}{}", ["", "b", "x"][a % 3]), value: "v".into(), quote: b'"' });
                         }
                     }
                     for c in 0..n {
@@ -217,9 +231,11 @@ fn gen_session(rng: &mut Rng, no_twins: bool, c06: bool) -> Session {
     }
     let k = if c06 { rng.range(2, 5) } else { *rng.pick(&[1usize, 1, 2, 2, 3, 3, 4, 5]) };
     let docs = match special_family(rng, &cfg) {
-        Some(d) => d,
-        None => gen_history(rng, &cfg, k).1,
+        // the unreliable-delivery property is not about depth: keep its (many-replica) sessions shallow
+        Some(d) if !(c06 && d.iter().any(|x| x.root.depth() > 60)) => d,
+        _ => gen_history(rng, &cfg, k).1,
     };
+    let very_deep = docs.iter().any(|x| x.root.depth() > 140);
     let k = docs.len();
     let rewritten_dups = c06 && rng.pct(40);
     let alts: Vec<Option<Doc>> = if rewritten_dups {
@@ -237,7 +253,7 @@ fn gen_session(rng: &mut Rng, no_twins: bool, c06: bool) -> Session {
     let base: Vec<Step> = in_order.iter().map(|i| Step { input: Input::Doc(*i), plan: Plan::slice(), cfg: 0 }).collect();
     replicas.push(Replica { role: "baseline".into(), entropy: rng.u128(), steps: base, warmup: vec![] });
     if !c06 {
-        if rng.pct(70) {
+        if rng.pct(70) && !very_deep {
             let fail = rng.pct(40);
             replicas.push(Replica { role: "environment-twin".into(), entropy: rng.u128(), steps: env_steps(rng, &docs, &in_order, fail, false), warmup: vec![] });
         }
